@@ -45,6 +45,7 @@ META = {
 NEVER = 999999999
 EPOCH = 1700000000.0     # the virtual clock runs at a realistic absolute time
 MOD = 'm'
+MOD2 = 'm2'      # the name of the first module is a prefix of the second one's (subscription keys 'm', 'm2', 'm2:_p')
 
 # ------------------------------------------------------------------ virtual clock
 
@@ -380,7 +381,7 @@ def _module_class(key, specs):
 
 
 class World:
-    """one or two modules (`m`, `n`) on a real dispatcher, fake connections, instrumented locks"""
+    """one or two modules (`m`, `m2`) on a real dispatcher, fake connections, instrumented locks"""
 
     def __init__(self, init, shape):
         """init: first record of a behaviour/trace (omit, sub, nodefault, hidden, mod2, c);
@@ -413,7 +414,7 @@ class World:
         self.nested_outer = set()   # parameters whose cached error came through a nested read
         self.tname = {}
         Clock.now = self.t2c(init.get('now', 1))
-        self.mname = {p: 'n' if p in init.get('mod2', ()) else MOD for p in self.params}
+        self.mname = {p: MOD2 if p in init.get('mod2', ()) else MOD for p in self.params}
         self.srv = ServerStub()
         self.mods = {}
         how = dict(shape.get('how', {}))
@@ -675,7 +676,7 @@ class World:
         if sc == 'mod':
             return MOD
         if sc == 'mod2':
-            return 'n'
+            return MOD2
         return f'{self.mname[sc]}:{self.mobj[sc].parameters[sc].export}'
 
     def activate(self, c, sc):
@@ -935,6 +936,7 @@ def _replay_one(beh, shape, seedstr, forced=None, verbose=False):
     rnd = random.Random(seedstr)
     got = w.observe(init['op'])
     devs = []
+    lastscope = None
     if got['c'] != init['c']:
         return [{'step': 0, 'op': init['op'], 'choices': {}, 'diff': ['init'], 'expected': {'c': init['c']}, 'observed': got}]
     for i, st in enumerate(beh[1:], 1):
@@ -943,6 +945,10 @@ def _replay_one(beh, shape, seedstr, forced=None, verbose=False):
         ch = w.execute(op, rnd, (forced or {}).get(str(i)))
         got = w.observe(op)
         d = _diff(st, got, conns, params, w.hidden)
+        if op['a'] in ('Activate', 'Deactivate', 'Drop'):
+            lastscope = f"{op['a']}:{op['x']}"          # (history class of a later delivery mismatch)
+        elif lastscope and ('out' in d or 'seen' in d):
+            ch['after'] = lastscope
         if op['a'] not in NOLOCK_OPS and w.cs_count == n0:
             d.append('lock')          # the operation never entered updateLock
         if got['unl']:
@@ -996,7 +1002,7 @@ def _replay_job(job):
 def _signature(bad):
     ch = bad['choices']
     sig = {'module': 'ParamCache', 'action': bad['op']['a'], 'diff': '+'.join(bad['diff'])}
-    for k in ('via', 'ret', 'rep', 'errobj', 'var', 'how', 'errkind'):
+    for k in ('via', 'ret', 'rep', 'errobj', 'var', 'how', 'errkind', 'after'):
         if k in ch:
             sig[k] = ch[k]
     return sig
@@ -1278,8 +1284,10 @@ def _run_agent(chk):
     for m in ('ParamCache', 'Gen_ParamCache', 'Trace_ParamCache', 'ParamCacheConc'):
         sany(m)
     ncpu = int(__import__('os').environ.get('VERIF_TLC_WORKERS', 0) or 0) or max(2, (__import__('os').cpu_count() or 4) // 3)
-    gens = [f'Gen_ParamCache_{tier}.cfg', f'Gen_ParamCache_cover_{tier}.cfg'] if quick else \
-           [f'Gen_ParamCache_thorough_{k}.cfg' for k in ('a', 'b')] + ['Gen_ParamCache_cover_thorough.cfg']
+    # (scopes: node-, module- and parameter-wise activation / deactivation over two modules m, m2)
+    gens = [f'Gen_ParamCache_{tier}.cfg', f'Gen_ParamCache_scopes_{tier}.cfg', f'Gen_ParamCache_cover_{tier}.cfg'] if quick else \
+           ['Gen_ParamCache_scopes_thorough.cfg'] + [f'Gen_ParamCache_thorough_{k}.cfg' for k in ('a', 'b')] + \
+           ['Gen_ParamCache_cover_thorough.cfg']
     # all TLC jobs are subprocesses: start them side by side (threads only wait for them)
     with ThreadPoolExecutor(max_workers=4) as ex:
         f_gen = [ex.submit(emit_behaviours, 'Gen_ParamCache', cfg, maximal_only=False, timeout=1100,
